@@ -18,6 +18,7 @@ theorem popSuf_closed (L : List Stmt) : PC.Closed (PopSuf L) where
   lastFlush := fun _ _ h => h
   siteCnt := fun _ _ h => h
   emitInj := fun _ _ _ _ _ h => h
+  note := fun _ h => h
   clock := fun _ _ h => h
   gone := fun _ h => h
   refresh := fun s h => by unfold PopSuf; rw [refreshCache_popLog]; exact h
@@ -55,7 +56,10 @@ theorem rqCommit_popLog (s : BSt) (i : Nat) : (rqCommit s i).popLog = s.popLog :
 theorem rqFin_popLog (s : BSt) (i total : Nat) : (rqFin s i total).popLog = s.popLog := by
   unfold rqFin; split <;> rfl
 theorem rqMove_popLog (s : BSt) (i : Nat) (st : Stmt) (rest : List Stmt) : (rqMove s i st rest).popLog = s.popLog := by
-  unfold PB.rqMove rqDecode; split <;> rfl
+  have e : (rqMove s i st rest).popLog = (rqMove0 s i st rest).popLog := by
+    unfold PB.rqMove fmtNote; split <;> rfl
+  rw [e]
+  unfold PB.rqMove0 rqDecode; split <;> rfl
 
 theorem readQueue_popLog (hpl : ∀ s k, (inj s k).popLog = s.popLog) (tsNow : Option Nat) (i : Nat) (fuel : Nat) :
     ∀ (total : Nat) (s : BSt), (Backend.readQueue inj tsNow i fuel total s).popLog = s.popLog := by
